@@ -808,9 +808,16 @@ func genC19Out(r *rand.Rand, n int, tier string) []string {
 		k := 1 + r.Intn(8)
 		seq := make([]string, k)
 		for j := range seq {
-			x := r.Intn(12)
+			// text streams mostly get text goals, binary streams mostly put_byte; a few of the other kind
+			x := r.Intn(10)
+			if r.Intn(14) == 0 {
+				x = 10
+			}
 			if binary {
-				x = r.Intn(14)
+				x = 10
+				if r.Intn(8) == 0 {
+					x = r.Intn(10)
+				}
 			}
 			switch {
 			case x < 4:
